@@ -244,7 +244,6 @@ func (r *Reader) Next() bool {
 		return false
 	}
 	copied := false
-	havePerm := r.permLabels != nil
 	for r.s.Scan() {
 		r.lineNum++
 		line := r.s.Text()
@@ -267,7 +266,7 @@ func (r *Reader) Next() bool {
 			continue
 		}
 		// Blank line delimits the header. If we find anything else, the file must not have a header.
-		if !havePerm {
+		if r.permLabels == nil {
 			if line == "" {
 				r.permLabels = r.labels.Copy()
 			} else {
